@@ -287,4 +287,26 @@ theorem popCwd_pushCwd (c : Ctx) (p : Str) : popCwd (pushCwd c p) = c := by
 theorem popPrefix_pushPrefix (c : Ctx) (p : Str) : popPrefix (pushPrefix c p) = c := by
   simp [popPrefix, pushPrefix]
 
+/-! ## the anchor rule of `Context.cwd` -/
+
+theorem fromLastAbs_no_abs (l : List Str) (h : l.any startsAbs = false) : fromLastAbs l = l := by
+  induction l with
+  | nil => rfl
+  | cons p rest ih =>
+    simp only [List.any_cons, Bool.or_eq_false_iff] at h
+    simp [fromLastAbs, h.2]
+
+theorem fromLastAbs_cons_no_abs (a : Str) (rest : List Str) (h : rest.any startsAbs = false) :
+    fromLastAbs (a :: rest) = a :: rest := by
+  simp [fromLastAbs, h]
+
+theorem fromLastAbs_append_abs (pre : List Str) (a : Str) (rest : List Str) (ha : startsAbs a = true)
+    (h : rest.any startsAbs = false) : fromLastAbs (pre ++ a :: rest) = a :: rest := by
+  induction pre with
+  | nil => exact fromLastAbs_cons_no_abs a rest h
+  | cons p pre ih =>
+    have : (pre ++ a :: rest).any startsAbs = true := by simp [ha]
+    simp only [List.cons_append, fromLastAbs, this, if_true]
+    exact ih
+
 end Inv
